@@ -2,7 +2,7 @@ from propcfg.C16 import TB
 
 def nontrivial(cmd, inp, impl, prev):
     # the input contains a line feed or white space at a line edge: flattening had something to do
-    if cmd.startswith("net."):
+    if cmd.startswith("net.") or cmd == "strip.wire":
         return True
     a = inp.split(" ")
     return "0a" in a[-1] or "20" in a[-1]
@@ -13,14 +13,24 @@ PROP = dict(
     exhaustive=dict(quick=False, thorough=False),
     rule="strings with line feeds / CRLF / ASCII and Unicode white space / tag and JSON fragments at random positions, "
          "sent through the public encoders in every flattened payload field (7 kinds + SVG) and every pass-through string "
-         "field (12 kinds); non-trivial = the input contains a line feed or a space; distinct = distinct record text",
+         "field (12 kinds); strip.field records whose kind is `a+b+...` are ONE encoder call on several messages: the string "
+         "in an earlier message (each of the 12 field kinds, or `inall` / `outall` = every pass-through field of one message "
+         "at once: identity strings, address lists, register ids, title and both text lines) and a last message without "
+         "any string (event, ack, ping, sleep state, map / state, command, register), the reverse, a filler on both sides, the "
+         "field message twice (every combination, fixed) + n/4 random calls of 2-5 messages; wire clause through BOTH ASCII "
+         "writers: net.c09 records (ConnectToPanel's writer) with white-space / line-feed texts and with 26 texts a writer could "
+         "treat specially (format verbs %d %% %s %[1]d, backslash escapes, | = #, line feeds, blanks at the edges), and strip.wire "
+         "records = gorwp.Connect against a scripted ASCII-mode panel (answers the probe with RDY, answers the initial request), "
+         "SetRWPTextByStruct / SendRawState with those texts: the LF-split stream the panel received (heartbeat pings removed) "
+         "must be exactly the encoder's strings for the same messages (Spec.Strip.checkWire); non-trivial = the input contains "
+         "a line feed or a space; distinct = distinct record text",
     trusted_base=["strings.Split/TrimSpace/Join/ReplaceAll modelled (Base/Bytes.lean) and validated by the correspondence",
                   "how each encoder embeds a field into its line is not modelled here (C01/C03); pass-through fields are checked metamorphically against the same message with the field already flattened"],
     assumptions=["proto string fields are valid UTF-8 (guaranteed by protobuf-go on Marshal/Unmarshal)"],
 )
 
 CLAIM = dict(
-    text="Lean theorems: the three flattening functions (stripLineBreaks, stripLineBreaksSvg, the return-site line-feed flattening) never output LF for any input (strip_no_lf, stripSvg_no_lf, singleLine_no_lf; Lemmas/StripOneLine.lean). FULL-ENCODER theorem encoders_frame: for every list of inbound messages and every list of outbound messages, whatever their string fields contain, no string returned by the encoder models encIn / encOut contains a line feed and the returned lists frame correctly (each string + LF, split at LF, recovers exactly the strings: Spec.Strip.framing); framing holds for any list of LF-free strings. The output of the payload flattening is, for every input, the in-order concatenation of the input's lines with only white-space runes removed at line ends (strip_structure / stripSvg_structure). strip_payload / stripSvg_payload: the executable statement the check evaluates on the real output (Spec.Strip.checkPayload: one line, white-space-free content equal) holds of the model for every input whose lines do not start, once trimmed, with a UTF-8 continuation byte (JoinSafe; implied by valid UTF-8: strip_content_utf8) and for SVG for every byte string; contentEq_invalid_utf8_counterexample shows the guard is needed (E2 80 LF 85 41 joins into U+2005) — Go strings from protobuf/JSON are valid UTF-8. topo_lines_content: the two topology lines the outbound encoder returns are the key + the flattened SVG / JSON and pass that payload check against the field. The same predicates are evaluated on the real encoders' output for every payload and pass-through field.",
+    text="Lean theorems: the three flattening functions (stripLineBreaks, stripLineBreaksSvg, the return-site line-feed flattening) never output LF for any input (strip_no_lf, stripSvg_no_lf, singleLine_no_lf; Lemmas/StripOneLine.lean). FULL-ENCODER theorem encoders_frame: for every list of inbound messages and every list of outbound messages, whatever their string fields contain, no string returned by the encoder models encIn / encOut contains a line feed and the returned lists frame correctly (each string + LF, split at LF, recovers exactly the strings: Spec.Strip.framing); framing holds for any list of LF-free strings. The output of the payload flattening is, for every input, the in-order concatenation of the input's lines with only white-space runes removed at line ends (strip_structure / stripSvg_structure). strip_payload / stripSvg_payload: the executable statement the check evaluates on the real output (Spec.Strip.checkPayload: one line, white-space-free content equal) holds of the model for every input whose lines do not start, once trimmed, with a UTF-8 continuation byte (JoinSafe; implied by valid UTF-8: strip_content_utf8) and for SVG for every byte string; contentEq_invalid_utf8_counterexample shows the guard is needed (E2 80 LF 85 41 joins into U+2005) — Go strings from protobuf/JSON are valid UTF-8. topo_lines_content: the two topology lines the outbound encoder returns are the key + the flattened SVG / JSON and pass that payload check against the field. The same predicates are evaluated on the real encoders' output for every payload and pass-through field, in single- and multi-message calls; the stream clause is evaluated at both writer sites the property names (ConnectToPanel: net.c09 records; gorwp: strip.wire records, Spec.Strip.checkWire = the panel's LF-split stream equals the produced strings) - the writers themselves are checked by execution only, not modelled in Lean.",
     note=TB + "That the Go encoders equal the models encIn / encOut (in particular that every returned string passes through the return-site flattening) rests on the correspondence of C01/C03/C07 over all field kinds.",
     technique="Lean 4 proof (list induction over lines, trim decomposition, full encoder models) + model/implementation correspondence through the public encoders",
 )
